@@ -456,7 +456,7 @@ impl Model {
                 let xs: Option<Vec<i64>> = srcs.iter().map(|s| i(*s)).collect();
                 MV::I(f.fold(0, &xs?))
             }
-            RK::Memo { key, src, .. } => MV::I(norm(i(*src)? + *key)),
+            RK::Memo { key, src, .. } | RK::BMemo { key, src } => MV::I(norm(i(*src)? + *key)),
         })
     }
 
@@ -496,6 +496,13 @@ impl Model {
                 }
                 let k = body.alts.len() as i64;
                 self.scratch_body(&body.alts[l2.rem_euclid(k) as usize], l2, cx, depth + 1)?
+            }
+            BodyExpr::LocalMemo { k } => {
+                if outers.is_empty() {
+                    norm(*k + l)
+                } else {
+                    norm(self.scratch(outers[0], depth + 1)?.i() + (*k + l).rem_euclid(3))
+                }
             }
             BodyExpr::Memo { m, k } => {
                 // memoised function: src.map(|x| x + key), key = (k + l) mod 3
